@@ -20,7 +20,7 @@ from droop.values.rational import Rational
 ID = 'C12'
 LEVEL = 'exploration'
 N = {'quick': 40000, 'thorough': 1500000}
-RULE = ('operand triples (raw scaled integers of all signs, zero, +-1 ulp, magnitudes to 10^60, precision 0..30; '
+RULE = ('operand triples (raw scaled integers of all signs, zero, +-1 ulp, magnitudes to 10^60, precision 0..30, display option absent or -1..p+2; '
         'rational numerators/denominators to 10^40) x every public operation; plus an exhaustive grid of small raw values; '
         'non-trivial = some exact result is not representable at p places, or an operand is negative, or |operand| > 10^18; '
         'distinct = distinct operand tuple')
@@ -48,7 +48,8 @@ def cases(draw, tier):
     if d.p(75):
         p = d.int(0, 6) if d.p(60) else d.int(0, 30)
         return dict(kind='fixed', p=p, a=raw_value(d, p), b=raw_value(d, p), c=raw_value(d, p),
-                    k=d.int(-50, 50) if d.p(80) else d.int(-10 ** 30, 10 ** 30))
+                    k=d.int(-50, 50) if d.p(80) else d.int(-10 ** 30, 10 ** 30),
+                    disp=None if d.p(55) else d.int(-1, p + 2))     # display digits must not influence any operation
 
     def q():
         big = d.p(30)
@@ -81,12 +82,14 @@ def extra_cases(tier, seed, chunk):
             yield dict(kind='fixed', p=p, a=a, b=b, c=c, k=c)
 
 
-def init_fixed(p):
+def init_fixed(p, disp=None):
     if p == 0:
-        opts = Options({'arithmetic': 'integer'})
+        o = {'arithmetic': 'integer'}
     else:
-        opts = Options({'arithmetic': 'fixed', 'precision': p})
-    Fixed.initialize(opts)
+        o = {'arithmetic': 'fixed', 'precision': p}
+    if disp is not None:
+        o['display'] = disp
+    Fixed.initialize(Options(o))
 
 
 def outcome(f):
@@ -115,7 +118,7 @@ def check_fixed(case):
     res.evals = 0
     p = case['p']
     S = 10 ** p
-    init_fixed(p)
+    init_fixed(p, case.get('disp'))
     ra, rb, rc, k = case['a'], case['b'], case['c'], case['k']
     A, B, C = Fraction(ra, S), Fraction(rb, S), Fraction(rc, S)
     x, y, z = Fixed(ra, True), Fixed(rb, True), Fixed(rc, True)
@@ -208,6 +211,8 @@ def check_fixed(case):
     if inexact or min(ra, rb, rc) < 0 or max(abs(ra), abs(rb), abs(rc)) > 10 ** 18 * S:
         res.nontrivial = True
     res.tag('fixed', 'fixed-p%s' % (p if p <= 2 else '3+'))
+    if case.get('disp') is not None and 0 <= case['disp'] < p:
+        res.tag('display-below-precision')
     if inexact:
         res.tag('inexact')
     return res
